@@ -142,3 +142,45 @@ package lru
 //@   ensures old(has(p.Cache.ECache.items.vals, keyOf(p.Cache.ECache.mapToInnerKeyF, k))) && before(expAt(old(p.Cache.ECache.items.aval(keyOf(p.Cache.ECache.mapToInnerKeyF, k)).v)), clock) ==> p.Cache.ECache.createNewF.calls == old(p.Cache.ECache.createNewF.calls) + 1 && p.Cache.ECache.logged(old(p.Cache.ECache.items.aval(keyOf(p.Cache.ECache.mapToInnerKeyF, k)).pk), old(p.Cache.ECache.items.aval(keyOf(p.Cache.ECache.mapToInnerKeyF, k)).v))
 // a miss calls the create function at least once
 //@   ensures !old(has(p.Cache.ECache.items.vals, keyOf(p.Cache.ECache.mapToInnerKeyF, k))) ==> p.Cache.ECache.createNewF.calls >= old(p.Cache.ECache.createNewF.calls) + 1
+
+// ---- C09: concurrent use of ECache ----
+// Everything behind p.lock (the item map with its whole linked structure, the in-flight table) is guarded; the fields
+// set by the constructor are immutable.  Monitor rule: at every Lock after the first one the guarded state is arbitrary
+// within cwf().  Single flight rests on OWNERSHIP BY ALLOCATION: an in-flight entry belongs to the invocation that
+// allocated its channel.  guarantee (proved at every Unlock of every method): entries whose channel I did not allocate
+// are left exactly as found, and I close no channel but my own.  rely (assumed at re-Lock): the entry I registered is
+// still there with my channel.  (That the guarantees of all other threads imply the rely is the paper step.)
+//@ pred (p *ECache[PK, K, V]) cwf() = p != nil && p.items != nil && p.items.wf() && p.items.quiet() && p.maxSize >= 1 && len(p.items.vals) <= p.maxSize && p.inflight != nil && p.createNewF != nil && p.mapToInnerKeyF != nil &&
+//@      forall(j, K, has(p.items.vals, j) ==> keyOf(p.mapToInnerKeyF, p.items.aval(j).pk) == j) &&
+//@      forall(j, K, has(p.inflight, j) ==> p.inflight[j] != nil && allocated(p.inflight[j]) && !closed(p.inflight[j]) && !has(p.items.vals, j)) &&
+//@      forall(i, K, forall(j, K, has(p.inflight, i) && has(p.inflight, j) && i != j ==> p.inflight[i] != p.inflight[j]))
+//@ monitor p ECache lock only C09 guards inflight pkg:iterable. invariant p.cwf() rely forall(j, K, atUnlock(has(p.inflight, j)) && mine(atUnlock(p.inflight[j])) ==> has(p.inflight, j) && p.inflight[j] == atUnlock(p.inflight[j])) guarantee forall(j, K, atLock(has(p.inflight, j)) && !mine(atLock(p.inflight[j])) ==> has(p.inflight, j) && p.inflight[j] == atLock(p.inflight[j]) && closed(p.inflight[j]) == atLock(closed(p.inflight[j])))
+// the fields the constructor sets and nobody changes
+//@ pred (p *ECache[PK, K, V]) built() = p != nil && p.items != nil && p.inflight != nil && p.createNewF != nil && p.mapToInnerKeyF != nil && p.maxSize >= 1
+
+//@ variant C09 func (p *ECache[PK, K, V]) GetOrCreate(pk PK) (V, error)
+//@   requires p.built()
+//@   modifies everything
+// hit (decided in the call's last critical section): the resident value, entry becomes the most recent, nothing else moves
+//@   ensures [C09] hit: atLock(has(p.items.vals, keyOf(p.mapToInnerKeyF, pk))) ==> r1 == nil && r0 == atLock(p.items.aval(keyOf(p.mapToInnerKeyF, pk)).v) && sinceLock(p.restKept(keyOf(p.mapToInnerKeyF, pk)) && p.newest(keyOf(p.mapToInnerKeyF, pk)) && p.items.aval(keyOf(p.mapToInnerKeyF, pk)) == old(p.items.aval(keyOf(p.mapToInnerKeyF, pk))) && len(p.items.vals) == old(len(p.items.vals)))
+// single flight: a creating invocation registered a channel of its own where nobody was registered, found its registration intact,
+// and tears exactly it down in its last critical section, closing the channel (waiters are released)
+//@   ensures [C09] singleflight: !atLock(has(p.items.vals, keyOf(p.mapToInnerKeyF, pk))) ==> !atLock(has(p.inflight, keyOf(p.mapToInnerKeyF, pk)), 1) && mine(atUnlock(p.inflight[keyOf(p.mapToInnerKeyF, pk)], 1)) && atLock(p.inflight[keyOf(p.mapToInnerKeyF, pk)]) == atUnlock(p.inflight[keyOf(p.mapToInnerKeyF, pk)], 1) && closed(atUnlock(p.inflight[keyOf(p.mapToInnerKeyF, pk)], 1)) && !has(p.inflight, keyOf(p.mapToInnerKeyF, pk))
+// failed creation leaves the items as found
+//@   ensures [C09] failed: !atLock(has(p.items.vals, keyOf(p.mapToInnerKeyF, pk))) && r1 != nil ==> sinceLock(p.allKept() && (p.onDeleteF != nil ==> p.logKept()))
+// successful creation: inserted as most recent, nothing leaked; below capacity nothing leaves; at capacity exactly the least recently used entry leaves and is logged once
+//@   ensures [C09] created: !atLock(has(p.items.vals, keyOf(p.mapToInnerKeyF, pk))) && r1 == nil ==> sinceLock(p.newest(keyOf(p.mapToInnerKeyF, pk))) && p.items.aval(keyOf(p.mapToInnerKeyF, pk)).v == r0 && p.items.aval(keyOf(p.mapToInnerKeyF, pk)).pk == pk
+//@   ensures [C09] created: !atLock(has(p.items.vals, keyOf(p.mapToInnerKeyF, pk))) && r1 == nil && atLock(len(p.items.vals)) < p.maxSize ==> sinceLock(p.restKept(keyOf(p.mapToInnerKeyF, pk)) && (p.onDeleteF != nil ==> p.logKept()))
+//@   ensures [C09] evict: !atLock(has(p.items.vals, keyOf(p.mapToInnerKeyF, pk))) && r1 == nil && atLock(len(p.items.vals)) == p.maxSize ==> len(p.items.vals) == p.maxSize && sinceLock(forall(j, K, old(has(p.items.vals, j)) && !has(p.items.vals, j) ==> p.wasOldest(j) && (p.onDeleteF != nil ==> p.onDeleteF.dlen == old(p.onDeleteF.dlen) + 1 && p.onDeleteF.dk[old(p.onDeleteF.dlen)] == old(p.items.aval(j).pk) && p.onDeleteF.dv[old(p.onDeleteF.dlen)] == old(p.items.aval(j).v))))
+//@   ensures [C09] evict: !atLock(has(p.items.vals, keyOf(p.mapToInnerKeyF, pk))) && r1 == nil && atLock(len(p.items.vals)) == p.maxSize ==> sinceLock(forall(j, K, j != keyOf(p.mapToInnerKeyF, pk) && has(p.items.vals, j) ==> old(has(p.items.vals, j)) && p.items.aval(j) == old(p.items.aval(j)) && p.items.aord(j) == old(p.items.aord(j))))
+//@   loop 1
+//@     invariant p.built() && k == keyOf(p.mapToInnerKeyF, pk)
+//@     invariant p == p0 && p.maxSize == old(p.maxSize) && p.onDeleteF == old(p.onDeleteF) && p.createNewF == old(p.createNewF) && p.mapToInnerKeyF == old(p.mapToInnerKeyF) && p.items == old(p.items) && p.inflight == old(p.inflight)
+
+//@ variant C09 func (p *ECache[PK, K, V]) Remove(pk PK) bool
+//@   requires p.built()
+//@   modifies everything
+//@   ensures p.restKept(keyOf(p.mapToInnerKeyF, pk)) && !has(p.items.vals, keyOf(p.mapToInnerKeyF, pk))
+//@   ensures r0 == old(has(p.items.vals, keyOf(p.mapToInnerKeyF, pk))) && len(p.items.vals) == old(len(p.items.vals)) - ite(r0, 1, 0)
+//@   ensures r0 && p.onDeleteF != nil ==> p.logged(old(p.items.aval(keyOf(p.mapToInnerKeyF, pk)).pk), old(p.items.aval(keyOf(p.mapToInnerKeyF, pk)).v))
+//@   ensures !r0 && p.onDeleteF != nil ==> p.logKept()
